@@ -1139,6 +1139,11 @@ func (sh *shaper) checkInjective(s *Shape, probs *[]keyProblem) {
 			if startsWithTypename(bi) || startsWithTypename(bj) {
 				continue
 			}
+			// tag+NUM next to a constant that is itself tag+<number>: the same value class (the constant
+			// is one of the numbers, e.g. the normalised zero "n:0"), equal values must share a key
+			if sameNumberClass(bi, bj) || sameNumberClass(bj, bi) {
+				continue
+			}
 			for _, fa := range first(bi) {
 				for _, fb := range first(bj) {
 					if overlap(fa, fb) {
@@ -1302,4 +1307,17 @@ func (a *A) numericKindsRule(fn *ssa.Function) {
 		return
 	}
 	a.Bad(fname(fn)+"#numeric-kinds", fn.Pos(), "numeric kinds %v are not normalised: a table key %s(1) does not match the stream value 1 (float64)", missing, missing[0])
+}
+
+// sameNumberClass: tagged is concat(const tag, num) and c is the constant tag+<decimal number>.
+func sameNumberClass(tagged, c *Shape) bool {
+	if tagged.K != "concat" || len(tagged.Sub) != 2 || tagged.Sub[0].K != "const" || tagged.Sub[1].K != "num" || c.K != "const" {
+		return false
+	}
+	tag := tagged.Sub[0].S
+	if !strings.HasPrefix(c.S, tag) {
+		return false
+	}
+	_, err := strconv.ParseFloat(c.S[len(tag):], 64)
+	return err == nil
 }
